@@ -35,6 +35,8 @@ pub struct Feat {
     pub rle_tokens: u32,
     pub max_symbol_used: u32,
     pub sub_cache: u32,
+    /// for the main image: the arguments of the `lloop` model request (w h bits xsize image single cacheBits), and the ops
+    pub trace: Option<(String, String)>,
 }
 
 /// depths of a random complete prefix code with `n >= 2` leaves and depth <= `maxd`
@@ -229,7 +231,7 @@ fn prefix_encode(v: u32) -> (usize, u32, u64) {
     ((2 * hb + second) as usize, extra_bits, u64::from(x & ((1 << extra_bits) - 1)))
 }
 
-enum Op { Lit(u32), Cache(usize), Back { len: u32, dist_code: u32 } }
+enum Op { Lit(u32), Cache(usize), Back { len: u32, dist_code: u32, dist: usize } }
 
 /// what the pixels of an entropy-coded image may be
 #[derive(Clone, Copy)]
@@ -314,7 +316,7 @@ fn entropy_image(rng: &mut Rng, w: &mut BitW, xs: u32, ys: u32, main: bool, dom:
                 px.push(v);
                 if cache_bits > 0 { let k = (0x1e35a7bdu32.wrapping_mul(v) >> (32 - cache_bits)) as usize; cache[k] = v; }
             }
-            ops.push((g, Op::Back { len, dist_code }));
+            ops.push((g, Op::Back { len, dist_code, dist }));
             if main { f.backrefs += 1; }
         } else if cache_bits > 0 && r < pb + pc {
             let k = rng.below(1 << cache_bits) as usize;
@@ -344,7 +346,7 @@ fn entropy_image(rng: &mut Rng, w: &mut BitW, xs: u32, ys: u32, main: bool, dom:
                 used[*g][3][(v >> 24) as usize] = true;
             }
             Op::Cache(k) => used[*g][0][280 + k] = true,
-            Op::Back { len, dist_code } => {
+            Op::Back { len, dist_code, .. } => {
                 used[*g][0][256 + prefix_encode(*len).0] = true;
                 used[*g][4][prefix_encode(*dist_code).0] = true;
             }
@@ -360,6 +362,17 @@ fn entropy_image(rng: &mut Rng, w: &mut BitW, xs: u32, ys: u32, main: bool, dom:
         }
         codes.push(cs);
     }
+    if main {
+        let one = |c: &Code| -> Option<usize> { let nz: Vec<usize> = (0..c.lengths.len()).filter(|&s| c.lengths[s] > 0).collect(); if nz.len() == 1 { Some(nz[0]) } else { None } };
+        let single: Vec<String> = codes.iter().map(|c| match (one(&c[0]), one(&c[1]), one(&c[2]), one(&c[3])) {
+            (Some(g), Some(r), Some(b), Some(a)) if g < 256 => (((a as u64) << 24) | ((r as u64) << 16) | ((g as u64) << 8) | b as u64).to_string(),
+            _ => "-".to_string(),
+        }).collect();
+        let mw = if prefix_bits > 0 { (xs + (1 << prefix_bits) - 1) >> prefix_bits } else { 0 };
+        let image = if meta.is_empty() { "-".to_string() } else { meta.iter().map(|p| (p >> 8 & 0xffff).to_string()).collect::<Vec<_>>().join(",") };
+        let opstr: Vec<String> = ops.iter().map(|(_, op)| match op { Op::Lit(v) => format!("l{v}"), Op::Cache(k) => format!("c{k}"), Op::Back { len, dist, .. } => format!("b{len}:{dist}") }).collect();
+        f.trace = Some((format!("{xs} {ys} {prefix_bits} {mw} {image} {} {cache_bits}", single.join(",")), if opstr.is_empty() { "-".into() } else { opstr.join(",") }));
+    }
     for (g, op) in &ops {
         let c = &codes[*g];
         match op {
@@ -370,7 +383,7 @@ fn entropy_image(rng: &mut Rng, w: &mut BitW, xs: u32, ys: u32, main: bool, dom:
                 c[3].put(w, (v >> 24) as usize);
             }
             Op::Cache(k) => c[0].put(w, 280 + k),
-            Op::Back { len, dist_code } => {
+            Op::Back { len, dist_code, .. } => {
                 let (s, eb, ev) = prefix_encode(*len);
                 c[0].put(w, 256 + s);
                 if eb > 0 { w.put(ev, eb); }
@@ -385,13 +398,19 @@ fn entropy_image(rng: &mut Rng, w: &mut BitW, xs: u32, ys: u32, main: bool, dom:
 
 /// a whole VP8L stream (without RIFF framing); returns the bytes and what was used
 pub fn stream(rng: &mut Rng, width: u32, height: u32) -> (Vec<u8>, Feat) {
+    stream_opt(rng, width, height, true)
+}
+
+/// `transforms = false`: no transform is written, so the decoder's output is the entropy-coded
+/// image itself (what the op-level model of the pixel loop computes)
+pub fn stream_opt(rng: &mut Rng, width: u32, height: u32, transforms: bool) -> (Vec<u8>, Feat) {
     let mut f = Feat::default();
     let mut w = BitW::new();
     w.header(width, height, rng.chance(1, 2));
     let mut xs = width;
     let mut kinds: Vec<u8> = vec![0, 1, 2, 3];
     for i in (1..4).rev() { kinds.swap(i, rng.below(i as u64 + 1) as usize); }
-    let count = match rng.below(4) { 0 => 0, 1 => 1, _ => rng.below(5) as usize };
+    let count = if !transforms { 0 } else { match rng.below(4) { 0 => 0, 1 => 1, _ => rng.below(5) as usize } };
     let mut dom = Domain::Any;
     for &k in kinds.iter().take(count) {
         w.put(1, 1);
